@@ -77,12 +77,13 @@ def regenerate_facts(ctx):
         factgen.main(["--repo", ctx.repo, "--out", gen_v, "--json", js, "--work", os.path.join(ctx.build, "ast"), "--inc", ctx.include_dir()])
         notes = json.load(open(js)).get("notes", [])
     except Exception as ex:         # clang failed / unexpected AST: fail closed
-        notes = ["fact extraction failed: %s" % str(ex)[-600:]]
+        first = next((l.strip() for l in str(ex).splitlines() if "error" in l), str(ex).strip()[-300:])
+        notes = ["fact extraction failed: %s" % first[:400]]
         old = open(gen_v).read() if os.path.exists(gen_v) else None
         txt = factgen.failing_text()
         if old != txt:
             open(gen_v, "w").write(txt)
-        ctx.broken.append("fact extractor props/C17/factgen.py failed: %s" % str(ex)[-300:])
+        ctx.broken.append("fact extractor props/C17/factgen.py failed (failing facts written, the rest of the check runs): %s" % first[:300])
     ctx.cov["fact_extractor_notes"] = notes
     for n in notes[:8]:
         ctx.log("factgen: " + n)
@@ -588,18 +589,67 @@ def replay(ctx, exes):
                       signature=doc.get("signature"))
 
 
+BUDGET_S = 225          # wall-clock budget of one run (quick tier; the thorough tier gets 3x)
+FALLBACK_FLAGS = (("full", []), ("without Array3DRepeater", ["-DC17_NO_RP"]), ("without the adaptors", ["-DC17_NO_ADAPTORS"]),
+                  ("index maps / for_each / iterators only", ["-DC17_NO_ARRAYS"]))
+
+
+def stage(ctx, name, fn, *args, **kw):
+    """run one stage; an exception is recorded (stage name + first line) and the run continues"""
+    default = kw.pop("default", None)
+    try:
+        return fn(*args, **kw)
+    except Exception as ex:
+        import traceback
+        tb = traceback.format_exc()
+        ctx.broken.append("stage '%s' raised %s: %s" % (name, type(ex).__name__, (str(ex).strip().splitlines() or [""])[0][:300]))
+        ctx.log("stage '%s' failed:\n%s" % (name, tb[-1500:]))
+        return default
+
+
+def build_harness(ctx, out, sanitize, flags):
+    """the full harness, or - when it does not compile against the tree - the widest fallback build that does"""
+    for label, ff in FALLBACK_FLAGS:
+        exe = ctx.cxx(["harness.cpp"], out, sanitize=sanitize, flags=list(flags) + ff, timeout=240)
+        if exe:
+            if ff:
+                ctx.cov.setdefault("harness_fallback_builds", {})[out] = label
+                ctx.log("harness %s: built the fallback '%s'" % (out, label))
+            return exe
+        logs = [l for l in ctx.log_lines if l.startswith("C++ harness build failed (%s)" % out)]
+        err = next((l for l in (logs[-1] if logs else "").splitlines() if "error" in l), "")
+        msg = "harness build %s (%s) failed: %s" % (out, label, err.strip()[:300])
+        if "harness build " + out in ctx.broken:
+            ctx.broken[ctx.broken.index("harness build " + out)] = msg
+        else:
+            ctx.broken.append(msg)
+    return None
+
+
 def run(ctx):
+    try:
+        run_stages(ctx)
+    except Exception as ex:                      # never abort: bin/vcheck calls ctx.finish() afterwards, the evidence is always written
+        import traceback
+        ctx.broken.append("check raised %s: %s" % (type(ex).__name__, (str(ex).strip().splitlines() or [""])[0][:300]))
+        ctx.log(traceback.format_exc()[-2000:])
+
+
+def run_stages(ctx):
     t0 = time.time()
-    regenerate(ctx)
-    regenerate_facts(ctx)
-    inv_keys = inventory_tables(ctx)
-    thm = ctx.coq_check(("Properties.v", "PropertiesFacts.v"), timeout=600)
-    failing = first_failing_lemma(ctx)
+    budget = BUDGET_S * (3 if ctx.thorough() else 1)
+    left = lambda floor=20: max(floor, int(budget - (time.time() - t0)))
+    stage(ctx, "regenerate GenIdx.v (cxx2coq)", regenerate, ctx)
+    stage(ctx, "regenerate FactsArr.v (factgen)", regenerate_facts, ctx)
+    inv_keys = stage(ctx, "declaration inventory", inventory_tables, ctx)
+    thm = stage(ctx, "Coq build", ctx.coq_check, ("Properties.v", "PropertiesFacts.v"), timeout=min(420, left(120)), default={}) or {}
+    failing = stage(ctx, "locate failing lemma", first_failing_lemma, ctx, default=[]) or []
     if failing:
         ctx.cov["first_failing_lemmas"] = ["%s: %s" % fl for fl in failing]
         ctx.log("first failing lemma(s): " + "; ".join("%s in %s" % (n, f) for f, n in failing))
         ctx.broken.insert(0, "first failing lemma: " + "; ".join("%s (%s)" % (n, f) for f, n in failing))
     proofs_ok = all(thm.values()) and bool(thm)
+
     def fresh():
         """the .vo files the extraction needs exist and are current (a failed build leaves stale ones behind)"""
         mt = {}
@@ -609,15 +659,25 @@ def run(ctx):
                 return False
             mt[f] = os.path.getmtime(vo)
         return mt["Model"] >= mt["gen/GenIdx"] and mt["Model"] >= mt["Checked"]
-    model = ctx.extract(snippets=["conv_N.ml", "conv_Z.ml"]) if fresh() else None
-    if model is None and "extraction Extract.v" not in ctx.broken:
-        ctx.broken.append("model not extracted (generated definitions / Model.v do not build)")
-    exes = ctx.cxx_many([dict(sources=["harness.cpp"], out="harness_plain", sanitize=None, flags=["-fwrapv"]),
-                         dict(sources=["harness.cpp"], out="harness_san", sanitize="asan")])
-    if exes[0] is None or exes[1] is None:
+    model = None
+    if stage(ctx, "freshness of the model .vo files", fresh, default=False):
+        model = stage(ctx, "extraction + OCaml model build", ctx.extract, snippets=["conv_N.ml", "conv_Z.ml"], timeout=min(240, left(60)))
+    if model is None:
+        ctx.broken.append("model not available (generated definitions / Model.v / extraction do not build): the implementation is judged "
+                          "by the oracle alone, model-vs-code comparison skipped")
+    from concurrent.futures import ThreadPoolExecutor
+    with ThreadPoolExecutor(max_workers=2) as ex:
+        f0 = ex.submit(stage, ctx, "harness build (plain)", build_harness, ctx, "harness_plain", None, ["-fwrapv"])
+        f1 = ex.submit(stage, ctx, "harness build (ASan+UBSan)", build_harness, ctx, "harness_san", "asan", [])
+        exes = [f0.result(), f1.result()]
+    if exes[0] is None and exes[1] is None:
+        ctx.broken.append("no harness build exists: nothing of the real code could be executed")
         return
+    if exes[0] is None or exes[1] is None:          # one build is enough: it runs both case groups
+        ctx.log("only one harness build exists (%s): it runs both case groups" % ("sanitized" if exes[0] is None else "plain"))
+        exes = [exes[0] or exes[1], exes[1] or exes[0]]
     if getattr(ctx, "replay", None):
-        replay(ctx, exes)
+        stage(ctx, "replay", replay, ctx, exes)
         return
     # a broken theorem widens the search for a concrete failing input
     extra = 1 if proofs_ok else 4
@@ -631,130 +691,173 @@ def run(ctx):
     finding_hits = []
     ovf_hits = []
     stats = {"oracle_checked": 0, "oracle_skipped_precondition_false": 0, "model_compared": 0}
+    judge_errors = []
+
+    def run_harness(grp, exe, cases):
+        """harness lines for all cases; when the harness dies on a case (crash / sanitizer) that case is reported and the run resumes
+        after it (at most 3 times), so that one crash does not hide the rest"""
+        lines, start, deaths = [None] * len(cases), 0, 0
+        while start < len(cases):
+            hl, rc, err = run_cases(ctx, exe, cases[start:], timeout=left(30))
+            hl = hl or []
+            for j, l in enumerate(hl[: len(cases) - start]):
+                lines[start + j] = l
+            n = start + len(hl)
+            if rc == 0 and n >= len(cases):
+                break
+            deaths += 1
+            bad = min(n, len(cases) - 1)
+            ctx.violation("harness (%s build) died on the real code: rc=%s at case %d/%d" % (grp, rc, bad, len(cases)),
+                          {"case": cases[bad], "stderr_tail": (err or "")[-3000:], "required": "no crash, no sanitizer report"},
+                          found_input=rc != 124)
+            if deaths >= 3 or rc == 124:
+                ctx.broken.append("harness (%s build) stopped after %d of %d cases (rc=%s)" % (grp, n, len(cases), rc))
+                break
+            lines[bad] = None
+            start = bad + 1
+        return lines
+
+    def judge(c, h, m, arith):
+        for ck in case_kinds(c):
+            executed[ck] = executed.get(ck, 0) + 1
+        req = oracle(c)
+        kind = c.split()[0]
+        ok = True
+        if kind == "VA" and " G " in h:
+            rr, gg = h.split(" G ", 1)
+            gg = gg.split(" ")[0]
+            vs = [int(x) for x in gg.split(",")] if gg != "-" else []
+            want = ("R %d %d" % (min(vs), max(vs))) if vs else "R empty"
+            if rr != want:
+                ok = False
+                viol.setdefault("VA-" + c.split()[1], []).append((c, h, want + " G " + gg))
+        if req is None:
+            stats["oracle_skipped_precondition_false"] += 1
+        else:
+            stats["oracle_checked"] += 1
+            if required_part(h) != required_part(req):
+                ok = False
+                if kind == "VR" and req == "empty":
+                    finding_hits.append((c, h))
+                elif kind == "VA":
+                    viol.setdefault("VA-" + c.split()[1], []).append((c, h, req))
+                else:
+                    viol.setdefault(kind, []).append((c, h, req))
+        if m is not None:
+            stats["model_compared"] += 1
+            if arith and kind != "BG":
+                parts = dict(p.split(":", 1) for p in m.split("|") if ":" in p)
+                mm, mi, mo = parts.get("M", m), parts.get("I", ""), parts.get("O", "")
+                if req is not None:
+                    if mi != req:
+                        corr.append("ideal reading of the generated definitions differs from the oracle on %r: %s" % (c, first_diff(mi, req)))
+                    if "ovf" in mo:
+                        ovf_hits.append((c, mo, h, req))
+            else:
+                mm = m
+            if h != mm and ok:
+                fd = first_diff(h, mm)
+                corr.append("%s: implementation %r vs model %r on case %r (implementation satisfies the oracle)" % (
+                    kind, fd["observed"], fd["required"], c[:120]))
+        if ok and req is not None and nontrivial(c):
+            ctx.nontriv(c)
+
     for grp, exe, cases, arith in (("arithmetic", exes[0], A, True), ("loops-arrays", exes[1], B, False)):
-        hl, rc, err = run_cases(ctx, exe, cases)
+        hl = stage(ctx, "run harness (%s)" % grp, run_harness, grp, exe, cases, default=[None] * len(cases))
         ml = None
         if model:
-            ml, mrc, merr = run_cases(ctx, model, cases)
-            if mrc != 0 or len(ml) != len(cases):
-                ctx.broken.append("model driver failed on %s cases rc=%s lines=%d/%d %s" % (grp, mrc, len(ml or []), len(cases), merr[-300:]))
+            res = stage(ctx, "run model (%s)" % grp, run_cases, ctx, model, cases, timeout=left(30), default=(None, 1, "exception"))
+            ml, mrc, merr = res
+            if mrc != 0 or ml is None or len(ml) != len(cases):
+                ctx.broken.append("model driver failed on %s cases rc=%s lines=%d/%d %s: model-vs-code comparison skipped for this group"
+                                  % (grp, mrc, len(ml or []), len(cases), (merr or "")[-300:]))
                 ml = None
-        if rc != 0 or len(hl) != len(cases):
-            n = len(hl)
-            ctx.violation("harness (%s build) died on the real code: rc=%d after %d/%d cases" % (grp, rc, n, len(cases)),
-                          {"case": cases[n] if n < len(cases) else None, "stderr_tail": err[-3000:],
-                           "required": "no crash, no sanitizer report"}, found_input=n < len(cases))
-        ctx.count(len(hl))
+        ran = unsupported = 0
         for i, c in enumerate(cases):
-            if i >= len(hl):
-                break
             h = hl[i]
-            for ck in case_kinds(c):
-                executed[ck] = executed.get(ck, 0) + 1
-            req = oracle(c)
-            kind = c.split()[0]
-            ok = True
-            if kind == "VA" and " G " in h:
-                rr, gg = h.split(" G ", 1)
-                vs = [int(x) for x in gg.split(",")] if gg != "-" else []
-                want = ("R %d %d" % (min(vs), max(vs))) if vs else "R empty"
-                if rr != want:
-                    ok = False
-                    viol.setdefault("VA-" + c.split()[1], []).append((c, h, want + " G " + gg))
-            if req is None:
-                stats["oracle_skipped_precondition_false"] += 1
-            else:
-                stats["oracle_checked"] += 1
-                if required_part(h) != required_part(req):
-                    ok = False
-                    if kind == "VR" and req == "empty":
-                        finding_hits.append((c, h))
-                    elif kind == "VA":
-                        viol.setdefault("VA-" + c.split()[1], []).append((c, h, req))
-                    else:
-                        viol.setdefault(kind, []).append((c, h, req))
-            if ml is not None:
-                stats["model_compared"] += 1
-                m = ml[i]
-                if arith and kind != "BG":
-                    parts = dict(p.split(":", 1) for p in m.split("|"))
-                    mm, mi, mo = parts.get("M"), parts.get("I"), parts.get("O")
-                    if req is not None:
-                        if mi != req:
-                            corr.append("ideal reading of the generated definitions differs from the oracle on %r: %s" % (c, first_diff(mi, req)))
-                        if "ovf" in mo:
-                            ovf_hits.append((c, mo, h, req))
-                else:
-                    mm = m
-                if h != mm and ok:
-                    corr.append("%s: implementation %r vs model %r on case %r (implementation satisfies the oracle)" % (
-                        kind, first_diff(h, mm)["observed"], first_diff(h, mm)["required"], c[:120]))
-            if ok and req is not None and nontrivial(c):
-                ctx.nontriv(c)
-    ctx.cov.update(stats)
-    ctx.cov["executed_case_kinds"] = executed
-    inventory_counts(ctx, inv_keys, executed)
-    # ---- report
-    for kind, lst in sorted(viol.items()):
-        lst.sort(key=lambda t: size_key(t[0]))
-        c, h, req = lst[0]
-        fd = first_diff(required_part(h), required_part(req))
-        what = "%s: %s returns %s, required %s (element %d of the case's enumeration)" % (
-            c if len(c) < 100 else c[:100] + "...", FIELD_NAMES.get(fd["field"] or kind, fd["field"] or kind), fd["observed"], fd["required"], fd["element"])
-        ctx.violation(what, {"case": c, "field": fd["field"], "element": fd["element"], "observed_value": fd["observed"],
-                             "required_value": fd["required"], "observed": h[:2000], "required": req[:2000],
-                             "failing_cases_of_this_kind": len(lst), "oracle": "python big-integer oracle in props/C17/check.py"})
-    if ovf_hits and not viol:
-        c, mo, h, req = sorted(ovf_hits, key=lambda t: size_key(t[0]))[0]
-        ctx.violation("%s: an intermediate value overflows its C type although the extent's product is below 2^64 "
-                      "(overflow-checked reading of the regenerated definitions: %s)" % (c, mo[:200]),
-                      {"case": c, "checked_reading": mo, "observed": h, "required": req + " with every intermediate exact"})
-    if finding_hits:
-        finding_hits.sort(key=lambda t: size_key(t[0]))
-        c, h = finding_hits[0]
-        ctx.cov["empty_region_getValueRange_cases_failing"] = len(finding_hits)
-        ctx.violation("getValueRange(begin,end) on an EMPTY region returns [get(begin),get(begin)] = [%s] instead of the empty range "
-                      "(case %s: extent, value seed, begin, end)" % (h, c),
-                      {"case": c, "observed": h, "required": "empty", "signature": FINDING_SIG,
-                       "failing_cases_of_this_kind": len(finding_hits)}, signature=FINDING_SIG)
-    for s in corr[:6]:
-        ctx.broken.append("correspondence: " + s)
-    ctx.cov["correspondence_differences"] = len(corr)
-    allc = A + B
-    for c in (allc[60], allc[len(A) - 30], allc[len(A) + 7000], allc[-1]):
-        ctx.sample({"case": c[:200], "required_and_observed": (oracle(c) or "")[:200]})
-    ctx.rule = ("exhaustive: every coordinate and index of all extents 1..5^3 (flatten/reshape/longIndex/coordsOf/longProduct) and 1..7^2; "
-                "for_each over all 15625 (lower,upper) pairs in [0,4]^3 (+ random offset/negative ones); iterator traversal (it++, ++it, range-for) "
-                "for all extents 0..5^3 and 0..7^2; ActualArray3D set/get/clamp/indexOf/numElements for all extents 1..5^3; shifts in [-5,5]^3; "
-                "all clip boxes of 4x4x4; accessor; multi-slice with 1-4 slices; every adaptor also at coordinates in [-2, size+2) per axis (demanded: the "
-                "cell its definition names, with the underlying array's clamping); getValueRange over all regions of 4x4x4 and THROUGH every adaptor "
-                "(accessors int->unsigned char / int->char / float->int / int->float over cells in [-507, 307]; shifted; sub-box; multi-slice; repeater) over "
-                "all regions of their extent + regions reaching outside, oracle = min/max of the adaptor's own get; random/boundary "
-                "extents with products beyond 2^31, 2^32 and up to 2^64 at single points (nothing allocated) and one set/get in >2^32-cell "
-                "byte arrays in lazily mapped memory. non-trivial = implementation agrees with the oracle AND the case has a non-cubic extent "
-                "with more than one cell / product >= 2^31 / a non-empty region / a shift not a multiple of the extent / a strict non-empty "
-                "sub-box / at least 2 slices")
-    ctx.cov["exhaustive"] = True
-    ctx.cov["exhaustive_spaces"] = {"extents_3d": "1..5 per axis (125), every coordinate and index", "extents_2d": "1..7 per axis (49)",
-                             "for_each_regions": 15625, "value_range_regions_4x4x4": 15625, "subboxes_4x4x4": 3375,
-                             "shifts": "[-5,5]^3 on %d extents" % len(ctx.pick([1, 2, 3], list(range(29))))}
-    ctx.cov["sanitizers"] = {"arithmetic": "none (-fwrapv: a narrowed intermediate yields a wrong number instead of a trap)",
-                             "loops_arrays": "ASan+UBSan"}
-    ctx.trusted += ["translator tools/cxx2coq/cxx2coq.py (clang++ -std=c++11 -DNDEBUG JSON AST of tools/cxx2coq/inst/idx.cpp -> Gallina over "
-                    "coq/Common/CxxSem.v), validated on every run: machine reading of the generated definitions == real C++ on all arithmetic cases",
-                    "fact extractor props/C17/factgen.py + tools/sxast/sxast.py over the clang JSON AST (-DNDEBUG) of Array3D.h / for_each.h / "
-                    "multidim_index_sequence.h / range.h: typed expression trees and statement shapes -> coq/C17/gen/FactsArr.v; meaning in "
-                    "coq/C17/FactsDefs.v. Assumed leaves: vec_t<int,3> + - % min max are component-wise at int (property C04); std::min/std::max; "
-                    "shared_ptr/vector element access; the instantiations <int> (and <int,float> for the accessor) stand for every value type",
-                    "numeric interpretations IZ/MZ (coq/Common/CxxSem.v) and the overflow-checked OZ (coq/C17/Checked.v)",
-                    "hand model coq/C17/Model.v of for_each, iterator traversal, prefix operator++, ActualArray3D, the adaptors and getValueRange "
-                    "(tied by the differential run, not by generation)",
-                    "correspondence harness harness/C17/harness.cpp, generators and python oracle in props/C17/check.py (g++ -O1; -fwrapv / ASan+UBSan)"]
-    ctx.assumptions += ["int is 32 bits and size_t 64 bits (LP64); size_t -> int narrowing is modular (implementation-defined; g++)",
-                        "cell values are ints; new T[n] cells are indeterminate until clear()/set() (the model's filler is never observed)",
-                        "loadRAW/mmapRAW and ActualArray3D's allocation-failure path are not modelled; Array3DRepeater is modelled as coded (mirror-repeat with "
-                        "period repeatedSize; not part of the property text, so a difference is a correspondence break, not a violation)",
-                        "theorems about division assume positive extents (C++ division by zero is undefined)"]
-    ctx.cov["check_wall_s"] = round(time.time() - t0, 1)
-    if ctx.thorough():
-        ctx.coq_thorough_chk(["C17.Properties", "C17.PropertiesFacts"])
+            if h is None:
+                continue
+            if h == "unsupported-in-this-build":
+                unsupported += 1
+                continue
+            ran += 1
+            try:
+                judge(c, h, ml[i] if ml is not None else None, arith)
+            except Exception as ex:
+                judge_errors.append("%s on case %r: %s" % (type(ex).__name__, c[:100], str(ex)[:200]))
+        ctx.count(ran)
+        if unsupported:
+            ctx.cov.setdefault("cases_unsupported_by_fallback_build", {})[grp] = unsupported
+            ctx.broken.append("%d %s cases could not be run: the harness was built in a fallback configuration" % (unsupported, grp))
+    if judge_errors:
+        ctx.broken.append("judging raised on %d cases, first: %s" % (len(judge_errors), judge_errors[0]))
+    def report():
+        ctx.cov.update(stats)
+        ctx.cov["executed_case_kinds"] = executed
+        inventory_counts(ctx, inv_keys, executed)
+        # ---- report
+        for kind, lst in sorted(viol.items()):
+            lst.sort(key=lambda t: size_key(t[0]))
+            c, h, req = lst[0]
+            fd = first_diff(required_part(h), required_part(req))
+            what = "%s: %s returns %s, required %s (element %d of the case's enumeration)" % (
+                c if len(c) < 100 else c[:100] + "...", FIELD_NAMES.get(fd["field"] or kind, fd["field"] or kind), fd["observed"], fd["required"], fd["element"])
+            ctx.violation(what, {"case": c, "field": fd["field"], "element": fd["element"], "observed_value": fd["observed"],
+                                 "required_value": fd["required"], "observed": h[:2000], "required": req[:2000],
+                                 "failing_cases_of_this_kind": len(lst), "oracle": "python big-integer oracle in props/C17/check.py"})
+        if ovf_hits and not viol:
+            c, mo, h, req = sorted(ovf_hits, key=lambda t: size_key(t[0]))[0]
+            ctx.violation("%s: an intermediate value overflows its C type although the extent's product is below 2^64 "
+                          "(overflow-checked reading of the regenerated definitions: %s)" % (c, mo[:200]),
+                          {"case": c, "checked_reading": mo, "observed": h, "required": req + " with every intermediate exact"})
+        if finding_hits:
+            finding_hits.sort(key=lambda t: size_key(t[0]))
+            c, h = finding_hits[0]
+            ctx.cov["empty_region_getValueRange_cases_failing"] = len(finding_hits)
+            ctx.violation("getValueRange(begin,end) on an EMPTY region returns [get(begin),get(begin)] = [%s] instead of the empty range "
+                          "(case %s: extent, value seed, begin, end)" % (h, c),
+                          {"case": c, "observed": h, "required": "empty", "signature": FINDING_SIG,
+                           "failing_cases_of_this_kind": len(finding_hits)}, signature=FINDING_SIG)
+        for s in corr[:6]:
+            ctx.broken.append("correspondence: " + s)
+        ctx.cov["correspondence_differences"] = len(corr)
+        allc = A + B
+        for c in (allc[60], allc[len(A) - 30], allc[len(A) + 7000], allc[-1]):
+            ctx.sample({"case": c[:200], "required_and_observed": (oracle(c) or "")[:200]})
+        ctx.rule = ("exhaustive: every coordinate and index of all extents 1..5^3 (flatten/reshape/longIndex/coordsOf/longProduct) and 1..7^2; "
+                    "for_each over all 15625 (lower,upper) pairs in [0,4]^3 (+ random offset/negative ones); iterator traversal (it++, ++it, range-for) "
+                    "for all extents 0..5^3 and 0..7^2; ActualArray3D set/get/clamp/indexOf/numElements for all extents 1..5^3; shifts in [-5,5]^3; "
+                    "all clip boxes of 4x4x4; accessor; multi-slice with 1-4 slices; every adaptor also at coordinates in [-2, size+2) per axis (demanded: the "
+                    "cell its definition names, with the underlying array's clamping); getValueRange over all regions of 4x4x4 and THROUGH every adaptor "
+                    "(accessors int->unsigned char / int->char / float->int / int->float over cells in [-507, 307]; shifted; sub-box; multi-slice; repeater) over "
+                    "all regions of their extent + regions reaching outside, oracle = min/max of the adaptor's own get; random/boundary "
+                    "extents with products beyond 2^31, 2^32 and up to 2^64 at single points (nothing allocated) and one set/get in >2^32-cell "
+                    "byte arrays in lazily mapped memory. non-trivial = implementation agrees with the oracle AND the case has a non-cubic extent "
+                    "with more than one cell / product >= 2^31 / a non-empty region / a shift not a multiple of the extent / a strict non-empty "
+                    "sub-box / at least 2 slices")
+        ctx.cov["exhaustive"] = True
+        ctx.cov["exhaustive_spaces"] = {"extents_3d": "1..5 per axis (125), every coordinate and index", "extents_2d": "1..7 per axis (49)",
+                                 "for_each_regions": 15625, "value_range_regions_4x4x4": 15625, "subboxes_4x4x4": 3375,
+                                 "shifts": "[-5,5]^3 on %d extents" % len(ctx.pick([1, 2, 3], list(range(29))))}
+        ctx.cov["sanitizers"] = {"arithmetic": "none (-fwrapv: a narrowed intermediate yields a wrong number instead of a trap)",
+                                 "loops_arrays": "ASan+UBSan"}
+        ctx.trusted += ["translator tools/cxx2coq/cxx2coq.py (clang++ -std=c++11 -DNDEBUG JSON AST of tools/cxx2coq/inst/idx.cpp -> Gallina over "
+                        "coq/Common/CxxSem.v), validated on every run: machine reading of the generated definitions == real C++ on all arithmetic cases",
+                        "fact extractor props/C17/factgen.py + tools/sxast/sxast.py over the clang JSON AST (-DNDEBUG) of Array3D.h / for_each.h / "
+                        "multidim_index_sequence.h / range.h: typed expression trees and statement shapes -> coq/C17/gen/FactsArr.v; meaning in "
+                        "coq/C17/FactsDefs.v. Assumed leaves: vec_t<int,3> + - % min max are component-wise at int (property C04); std::min/std::max; "
+                        "shared_ptr/vector element access; the instantiations <int> (and <int,float> for the accessor) stand for every value type",
+                        "numeric interpretations IZ/MZ (coq/Common/CxxSem.v) and the overflow-checked OZ (coq/C17/Checked.v)",
+                        "hand model coq/C17/Model.v of for_each, iterator traversal, prefix operator++, ActualArray3D, the adaptors and getValueRange "
+                        "(tied by the differential run, not by generation)",
+                        "correspondence harness harness/C17/harness.cpp, generators and python oracle in props/C17/check.py (g++ -O1; -fwrapv / ASan+UBSan)"]
+        ctx.assumptions += ["int is 32 bits and size_t 64 bits (LP64); size_t -> int narrowing is modular (implementation-defined; g++)",
+                            "cell values are ints; new T[n] cells are indeterminate until clear()/set() (the model's filler is never observed)",
+                            "loadRAW/mmapRAW and ActualArray3D's allocation-failure path are not modelled; Array3DRepeater is modelled as coded (mirror-repeat with "
+                            "period repeatedSize; not part of the property text, so a difference is a correspondence break, not a violation)",
+                            "theorems about division assume positive extents (C++ division by zero is undefined)"]
+        ctx.cov["check_wall_s"] = round(time.time() - t0, 1)
+        if ctx.thorough():
+            ctx.coq_thorough_chk(["C17.Properties", "C17.PropertiesFacts"])
+
+    stage(ctx, "report", report)
